@@ -177,6 +177,23 @@ def intervalValid (quality : String) (number : Nat) (direction : String) : Bool 
   let n := if n = 0 then 7 else n
   INTERVALCLASSES.contains (quality ++ showNat n) && (direction == "up" || direction == "down")
 
+/-- `Interval.change_quality(num)`: the new quality, `none` where the code raises (`list.index` on a quality that is
+    not in the ladder of this number: ValueError; a step beyond either end of the ladder: ValueError).  The number and
+    the direction of the interval are not touched. -/
+def changeQualityOn (ladder : List String) (quality : String) (num : Int) : Option String :=
+  match indexOf quality ladder with
+  | none => none
+  | some i =>
+    let j : Int := (i : Int) + num
+    if j < 0 || j ≥ (ladder.length : Int) then none else ladder[j.toNat]?
+
+def qualityLadder (number : Nat) : List String :=
+  if number = 1 || number = 4 || number = 5 || number = 8
+  then ["dd", "d", "P", "A", "AA"] else ["dd", "d", "m", "M", "A", "AA"]
+
+def changeQuality (number : Nat) (quality : String) (num : Int) : Option String :=
+  if num = 0 then some quality else changeQualityOn (qualityLadder number) quality num
+
 /-- `Tuplet.duration_multiplier`: `normal/actual`, times `dur(normal_type)/dur(actual_type)`
     when the two note types differ -/
 def tupletMultiplier (actual normal : Nat) (actualType normalType : String) : Option Rat :=
